@@ -267,4 +267,36 @@ theorem spec_call_never_ret (st : Stmt) (s s' : St) (e : RtErr) (v : Val) :
   rcases hr : Spec.exec st s with ⟨o, s1⟩
   cases o <;> simp
 
+/-- **spec_refinement_partial** — the PROVED part of "eval refines the reference semantics": `eval_refines_spec`
+    under the name that says it is partial. FULL statement not proved: the same with (1) calls inside a program
+    read as `Stmt.call` (today a call node is a leaf of `stmtOf`; `call_refines_spec` is about the function body once
+    its frame exists and is not connected to the call node), (2) except clauses read as `Clauses.clause` with their
+    type test (today `Clauses.opaque`; the decision of a typed clause is `exceptHandler_typed_decides` /
+    `exceptHandler_typed_as_decides`, not part of `Spec.handle`), (3) `for … in` loops (leaves). With
+    `stmtOf := leaf ∘ eval` the statement would be `rfl`: its content is exactly the node kinds statements, if,
+    condition loop and the try skeleton (block, otherwise, finally, handler order). -/
+theorem spec_refinement_partial (f sc : Nat) (n : Node) (s : St) :
+    toOutS (run (eval f sc n) s) = Spec.exec (stmtOf f sc n) s := eval_refines_spec f sc n s
+
+/-! ### readings the reference semantics takes from the code (none follows from the property text)
+
+`Spec.afterFin` drops the outcome of the finally block, `Spec.while` ends the loop on a break raised while the
+GUARD is evaluated and lets a continue raised there travel to the enclosing loop, and `toOut` classifies by the
+evaluator's own tests. The three examples below pin what the code does (they are by construction). -/
+
+/-- READING (not constrained by the property text): an error / break / continue / return OF the finally block is
+    dropped by the deferred evaluation — the statement keeps the outcome it had before -/
+theorem finally_outcome_dropped_example (v : Val) (e : Sig) (he : e.isFatal = false) (s : St) :
+    run (tryFinally (pure v) (some (throw e))) s = (.ok v, s) := by
+  rw [tryFinally_some_eq]
+  simp [skipFin, afterFinally, run_throw, he]
+
+/-- READING: a break raised while the guard of a condition loop is evaluated ends that loop normally -/
+theorem guard_break_ends_loop_example (e : Sig) (he : e.isBreak = true) (b : M Val) (f : Nat) (s : St) :
+    run (guardLoop (throw e) b (f+1)) s = (.ok Val.null, s) := by
+  rw [loop_guard]; simp [run_throw, he]
+
+/-- READING: the number 0 is truthy (`if 0 { }` and `for 0 { }` run their block) -/
+theorem zero_is_truthy_example : truthy (.num 0) = true := rfl
+
 end Ecal.Props.C04
